@@ -384,6 +384,12 @@ func runProperty(prop, tier string, workers int) int {
 	// ---- witness validation against the native build ----
 	validated, mismatched := 0, 0
 	var samples []interface{}
+	type nativeViolation struct {
+		pkg string
+		log []string
+		v   Violation
+	}
+	var nativeFound []nativeViolation
 	byPkg := map[string][]int{}
 	for i, w := range wits {
 		byPkg[w.pkg] = append(byPkg[w.pkg], i)
@@ -414,7 +420,30 @@ func runProperty(prop, tier string, workers int) int {
 			}
 			if bad {
 				mismatched++
-				inconclusive = append(inconclusive, fmt.Sprintf("witness mismatch in %s: engine %v native %v", wits[i].h, want, logs[k]))
+				// a native assertion failure / panic on concrete witness inputs is a failure of the real
+				// code whether or not the engine's path predicted it (state the sequential models do not
+				// capture, e.g. a runtime pool): it is reported as a violation, not only as a mismatch
+				nat := ""
+				for _, l := range logs[k] {
+					if strings.HasPrefix(l, "ASSERT-FAIL ") && nat == "" {
+						nat = strings.TrimPrefix(l, "ASSERT-FAIL ")
+					}
+				}
+				kind := "assert"
+				if nat == "" {
+					for _, l := range logs[k] {
+						if strings.HasPrefix(l, "PANIC ") {
+							nat, kind = "no-panic", "panic"
+						}
+					}
+				}
+				if nat != "" {
+					nativeFound = append(nativeFound, nativeViolation{pkg: pkg, log: logs[k],
+						v: Violation{Harness: wits[i].h, Assertion: nat, Params: wits[i].w.Params, Inputs: wits[i].w.Inputs, Kind: kind,
+							Msg: "native run of a sampled path witness fails (the engine's path did not predict it)"}})
+				} else {
+					inconclusive = append(inconclusive, fmt.Sprintf("witness mismatch in %s: engine %v native %v", wits[i].h, want, logs[k]))
+				}
 			} else {
 				validated++
 				if len(samples) < 12 {
@@ -428,6 +457,26 @@ func runProperty(prop, tier string, workers int) int {
 	kfs := loadKnownFindings()
 	violations := 0
 	knownHit := map[string]bool{}
+	emit := func(v Violation, pkg string, log []string) {
+		if kf := matchKnown(kfs, prop, v); kf != nil {
+			key := kf.Harness + "/" + kf.Assertion + "/" + kf.What
+			if !knownHit[key] {
+				knownHit[key] = true
+				fmt.Printf("KNOWN-FINDING: property=%s %s\n", prop, kf.What)
+			}
+			return
+		}
+		rf := ReplayFile{Property: prop, Pkg: pkg, Harness: v.Harness, Assertion: v.Assertion, Kind: v.Kind, Params: v.Params, Inputs: v.Inputs, Msg: v.Msg, NativeLog: log}
+		b, _ := json.MarshalIndent(rf, "", " ")
+		h := sha1.Sum(b)
+		dir := filepath.Join(verifDir, "replays", prop)
+		os.MkdirAll(dir, 0755)
+		path := filepath.Join(dir, fmt.Sprintf("%s-%x.json", v.Harness, h[:6]))
+		os.WriteFile(path, b, 0644)
+		fmt.Printf("VIOLATION property=%s replay=%s\n", prop, path)
+		fmt.Printf("  harness=%s assertion=%s params=%v inputs=%v native=%v\n", v.Harness, v.Assertion, v.Params, v.Inputs, log)
+		violations++
+	}
 	cbyPkg := map[string][]int{}
 	for i, c := range cands {
 		cbyPkg[c.pkg] = append(cbyPkg[c.pkg], i)
@@ -462,25 +511,11 @@ func runProperty(prop, tier string, workers int) int {
 				inconclusive = append(inconclusive, fmt.Sprintf("counterexample does not reproduce natively (engine/stub bug): %s native=%v", pb, logs[k]))
 				continue
 			}
-			if kf := matchKnown(kfs, prop, v); kf != nil {
-				key := kf.Harness + "/" + kf.Assertion + "/" + kf.What
-				if !knownHit[key] {
-					knownHit[key] = true
-					fmt.Printf("KNOWN-FINDING: property=%s %s\n", prop, kf.What)
-				}
-				continue
-			}
-			rf := ReplayFile{Property: prop, Pkg: pkg, Harness: v.Harness, Assertion: v.Assertion, Kind: v.Kind, Params: v.Params, Inputs: v.Inputs, Msg: v.Msg, NativeLog: logs[k]}
-			b, _ := json.MarshalIndent(rf, "", " ")
-			h := sha1.Sum(b)
-			dir := filepath.Join(verifDir, "replays", prop)
-			os.MkdirAll(dir, 0755)
-			path := filepath.Join(dir, fmt.Sprintf("%s-%x.json", v.Harness, h[:6]))
-			os.WriteFile(path, b, 0644)
-			fmt.Printf("VIOLATION property=%s replay=%s\n", prop, path)
-			fmt.Printf("  harness=%s assertion=%s params=%v inputs=%v native=%v\n", v.Harness, v.Assertion, v.Params, v.Inputs, logs[k])
-			violations++
+			emit(v, pkg, logs[k])
 		}
+	}
+	for _, nv := range nativeFound {
+		emit(nv.v, nv.pkg, nv.log)
 	}
 	if violations > 0 {
 		exit = 1
